@@ -3,6 +3,7 @@ Lemmas about the address parsers of SquidModel.Ftp.Addr: what an accepted string
 number conversion facts, and acceptance of strictly formed strings.
 -/
 import SquidModel.Ftp.Addr
+import SquidModel.Base.Finite
 
 namespace SquidModel.Ftp
 open SquidModel.Gen.FtpParsing
@@ -49,6 +50,49 @@ theorem lexFields_length : ∀ (n : Nat) (s : Bytes) (w : List Int), lexFields n
         simp [this]
     · simp at h
 
+theorem pasvPort_ok_inv {sanity : Bool} {a : Nat} {p1 p2 : Int} {ip port : Nat}
+    (c1 : 0 ≤ p1) (c3 : p1 ≤ 255) (c2 : 0 ≤ p2) (c4 : p2 ≤ 255)
+    (h : pasvPort sanity a p1 p2 = .ok ip port) :
+    a = ip ∧ (port : Int) = p1 * 256 + p2 ∧ 1 ≤ port ∧ port ≤ 65535 ∧ (sanity = true → 1024 ≤ port) := by
+  unfold pasvPort at h
+  split at h
+  · exact absurd h (by simp)
+  · rename_i hp0
+    split at h
+    · exact absurd h (by simp)
+    · rename_i hsan
+      simp only [AddrResult.ok.injEq] at h
+      obtain ⟨hip, hport⟩ := h
+      have hmod : (p1 * 256 + p2).toNat % 65536 = (p1 * 256 + p2).toNat := by
+        apply Nat.mod_eq_of_lt; omega
+      have hport' : (port : Int) = p1 * 256 + p2 := by
+        rw [← hport, hmod]; omega
+      refine ⟨hip, hport', by omega, by omega, ?_⟩
+      intro hs1
+      simp only [hs1, true_and, Int.not_lt, pasvSanityMinPort] at hsan
+      omega
+
+theorem pasvAddr_some_inv {ipParse : Bytes → Option Nat} {force : Option Bytes} {addr0 : Nat} {h1 h2 h3 h4 : Int} {a : Nat}
+    (h : pasvAddr ipParse force addr0 h1 h2 h3 h4 = some a) :
+    (force = none → a = assignIp ipParse addr0 (fmtQuad h1 h2 h3 h4) ∧ isAny a = false) ∧
+    (∀ f, force = some f → a = assignIp ipParse addr0 f) := by
+  unfold pasvAddr at h
+  cases force with
+  | some f =>
+    simp only [Option.some.injEq] at h
+    refine ⟨fun hf => absurd hf (by simp), ?_⟩
+    intro f' hf
+    simp only [Option.some.injEq] at hf
+    subst hf; exact h.symm
+  | none =>
+    simp only at h
+    split at h
+    · exact absurd h (by simp)
+    · rename_i hany
+      simp only [Option.some.injEq] at h
+      subst h
+      exact ⟨fun _ => ⟨rfl, by simpa using hany⟩, fun f hf => absurd hf (by simp)⟩
+
 /-- Inversion of Ftp::ParseIpPort: everything that must hold of an accepted string. -/
 theorem parseIpPort_ok_inv {ipParse : Bytes → Option Nat} {sanity : Bool} {force : Option Bytes} {addr0 : Nat}
     {buf : Bytes} {ip port : Nat} (h : parseIpPort ipParse sanity force addr0 buf = .ok ip port) :
@@ -69,58 +113,195 @@ theorem parseIpPort_ok_inv {ipParse : Bytes → Option Nat} {sanity : Bool} {for
       obtain ⟨e1, e2, e3, e4, e5, e6⟩ := hl
       subst e1 e2 e3 e4 e5 e6
       refine ⟨h1, h2, h3, h4, p1, p2, hw, ?_⟩
-      simp only [pasvOctetMax, pasvSanityMinPort] at h
-      by_cases hc : (decide (cInt p1 < 0) || decide (cInt p2 < 0) || decide (cInt p1 > 255) || decide (cInt p2 > 255)) = true
-      · rw [if_pos hc] at h; exact absurd h (by simp)
-      · rw [if_neg hc] at h
-        simp only [Bool.or_eq_true, decide_eq_true_eq, not_or, Int.not_lt] at hc
-        obtain ⟨⟨⟨c1, c2⟩, c3⟩, c4⟩ := hc
+      split at h
+      · exact absurd h (by simp)
+      · rename_i hc
+        simp only [not_or, Int.not_lt, pasvOctetMax] at hc
+        obtain ⟨c1, c2, c3, c4⟩ := hc
         have c3' : cInt p1 ≤ 255 := by omega
         have c4' : cInt p2 ≤ 255 := by omega
-        -- the tail shared by both ways of obtaining the address
-        have tail : ∀ a : Nat,
-            (if cInt p1 * 256 + cInt p2 ≤ 0 then AddrResult.reject
-              else if (sanity && decide (cInt p1 * 256 + cInt p2 < 1024)) = true then AddrResult.reject
-              else AddrResult.ok a ((cInt p1 * 256 + cInt p2).toNat % 65536)) = AddrResult.ok ip port →
-            a = ip ∧ (port : Int) = cInt p1 * 256 + cInt p2 ∧ 1 ≤ port ∧ port ≤ 65535 ∧ (sanity = true → 1024 ≤ port) := by
-          intro a ht
-          by_cases hp0 : cInt p1 * 256 + cInt p2 ≤ 0
-          · rw [if_pos hp0] at ht; exact absurd ht (by simp)
-          · rw [if_neg hp0] at ht
-            by_cases hsan : (sanity && decide (cInt p1 * 256 + cInt p2 < 1024)) = true
-            · rw [if_pos hsan] at ht; exact absurd ht (by simp)
-            · rw [if_neg hsan] at ht
-              simp only [AddrResult.ok.injEq] at ht
-              obtain ⟨hip, hport⟩ := ht
-              have hmod : (cInt p1 * 256 + cInt p2).toNat % 65536 = (cInt p1 * 256 + cInt p2).toNat := by
-                apply Nat.mod_eq_of_lt; omega
-              have hport' : (port : Int) = cInt p1 * 256 + cInt p2 := by
-                rw [← hport, hmod]; omega
-              refine ⟨hip, hport', by omega, by omega, ?_⟩
-              intro hs1
-              simp only [hs1, Bool.true_and, decide_eq_true_eq, Int.not_lt] at hsan
-              omega
-        cases force with
-        | some f =>
-          simp only at h
-          obtain ⟨hip, r⟩ := tail _ h
-          refine ⟨c1, c3', c2, c4', r.1, r.2.1, r.2.2.1, r.2.2.2, ?_, ?_⟩
-          · intro hf; exact absurd hf (by simp)
-          · intro f' hf
-            simp only [Option.some.injEq] at hf
-            subst hf; exact hip.symm
-        | none =>
-          simp only at h
-          by_cases hany : isAny (assignIp ipParse addr0 (fmtQuad (cInt h1) (cInt h2) (cInt h3) (cInt h4))) = true
-          · rw [if_pos hany] at h; exact absurd h (by simp)
-          · rw [if_neg hany] at h
-            simp only at h
-            obtain ⟨hip, r⟩ := tail _ h
-            refine ⟨c1, c3', c2, c4', r.1, r.2.1, r.2.2.1, r.2.2.2, ?_, ?_⟩
-            · intro _
-              subst hip
-              exact ⟨rfl, by simpa using hany⟩
-            · intro f' hf; exact absurd hf (by simp)
+        split at h
+        · exact absurd h (by simp)
+        · rename_i a ha
+          obtain ⟨hip, r⟩ := pasvPort_ok_inv c1 c3' c2 c4' h
+          subst hip
+          obtain ⟨q1, q2⟩ := pasvAddr_some_inv ha
+          exact ⟨c1, c3', c2, c4', r.1, r.2.1, r.2.2.1, r.2.2.2, q1, q2⟩
   · exact absurd h (by simp)
+
+/-! ### EPRT -/
+
+/-- The fields of an EPRT string as written, read the way Ftp::ParseProtoIpPort walks the string: protocol number,
+address text, port number (`none` when there are no digits: strtol then yields 0). -/
+def eprtAsWritten (buf : Bytes) : Option (Int × Bytes × Option Int) :=
+  match buf with
+  | [] => none
+  | delim :: s =>
+    match lexInt s with
+    | none => none
+    | some (pw, e) =>
+      if e.head? = some delim then
+        match splitAtByte delim e.tail with
+        | some (ipTxt, rest) => some (pw, ipTxt, (lexInt rest).map (·.1))
+        | none => none
+      else none
+
+/-- the `int port` Ftp::ParseProtoIpPort computes from the port field as written -/
+def eprtPortInt : Option Int → Int
+  | some v => cInt v
+  | none => 0
+
+theorem strtolInt_fst (s : Bytes) : (strtolInt s).1 = eprtPortInt ((lexInt s).map (·.1)) := by
+  unfold strtolInt eprtPortInt
+  cases lexInt s with
+  | none => rfl
+  | some p => rfl
+
+theorem eprtPort_ok_inv {sanity : Bool} {proto : Int} {addr : Nat} {rest : Bytes} {ip port : Nat}
+    (h : eprtPort sanity proto addr rest = .ok ip port) :
+    addr = ip ∧ isAny ip = false ∧ ((proto = 2) ↔ isV4 ip = false) ∧ 0 ≤ (strtolInt rest).1 ∧
+      (strtolInt rest).2.head? = some 124 ∧ (sanity = true → 1024 ≤ (strtolInt rest).1) ∧
+      port = (strtolInt rest).1.toNat % 65536 := by
+  unfold eprtPort at h
+  split at h
+  · exact absurd h (by simp)
+  · rename_i hany
+    split at h
+    · exact absurd h (by simp)
+    · rename_i hfam
+      split at h
+      · exact absurd h (by simp)
+      · rename_i hport
+        split at h
+        · exact absurd h (by simp)
+        · rename_i hsan
+          simp only [AddrResult.ok.injEq] at h
+          obtain ⟨hip, hp⟩ := h
+          subst hip
+          simp only [not_or, Int.not_lt, ne_eq, Decidable.not_not] at hport
+          refine ⟨rfl, by simpa using hany, ?_, hport.1, hport.2, ?_, hp.symm⟩
+          · simp only [ne_eq, Decidable.not_not] at hfam
+            rw [hfam]
+          · intro hs
+            simp only [hs, true_and, Int.not_lt, eprtSanityMinPort] at hsan
+            exact hsan
+
+theorem eprtAddr_ok_inv {ipParse : Bytes → Option Nat} {sanity : Bool} {addr0 : Nat} {delim : UInt8} {proto : Int}
+    {e : Bytes} {ip port : Nat} (h : eprtAddr ipParse sanity addr0 delim proto e = .ok ip port) :
+    ∃ ipTxt rest, splitAtByte delim e.tail = some (ipTxt, rest) ∧ ipTxt.length < maxIpStrLen ∧
+      eprtPort sanity proto (assignIp ipParse addr0 ipTxt) rest = .ok ip port := by
+  unfold eprtAddr at h
+  split at h
+  · exact absurd h (by simp)
+  · rename_i ipTxt rest hsp
+    split at h
+    · exact absurd h (by simp)
+    · rename_i hlen
+      exact ⟨ipTxt, rest, hsp, by omega, h⟩
+
+/-- Inversion of Ftp::ParseProtoIpPort: everything that must hold of an accepted string. -/
+theorem parseProtoIpPort_ok_inv {ipParse : Bytes → Option Nat} {sanity : Bool} {addr0 : Nat} {buf : Bytes} {ip port : Nat}
+    (h : parseProtoIpPort ipParse sanity addr0 buf = .ok ip port) :
+    ∃ pw ipTxt po, eprtAsWritten buf = some (pw, ipTxt, po) ∧ (cInt pw = 1 ∨ cInt pw = 2) ∧
+      ipTxt.length < maxIpStrLen ∧ ip = assignIp ipParse addr0 ipTxt ∧ isAny ip = false ∧
+      ((cInt pw = 2) ↔ isV4 ip = false) ∧ 0 ≤ eprtPortInt po ∧ (sanity = true → 1024 ≤ eprtPortInt po) ∧
+      port = (eprtPortInt po).toNat % 65536 := by
+  unfold parseProtoIpPort at h
+  split at h
+  · exact absurd h (by simp)
+  · rename_i delim s
+    split at h
+    · exact absurd h (by simp)
+    · rename_i hc
+      simp only [not_or, not_and, ne_eq, Decidable.not_not] at hc
+      obtain ⟨hproto, hdelim⟩ := hc
+      obtain ⟨ipTxt, rest, hsp, hlen, hp⟩ := eprtAddr_ok_inv h
+      obtain ⟨q1, q2, q3, q4, _, q6, q7⟩ := eprtPort_ok_inv hp
+      -- the protocol number was converted (otherwise strtol yields 0)
+      cases hl : lexInt s with
+      | none =>
+        simp only [strtolInt, hl] at hproto
+        exact absurd (hproto (by decide)) (by decide)
+      | some pe =>
+        obtain ⟨pw, e⟩ := pe
+        have hst : strtolInt s = (cInt pw, e) := by simp only [strtolInt, hl]
+        rw [hst] at hdelim hsp hp hproto q3
+        simp only at hdelim hsp hproto q3
+        refine ⟨pw, ipTxt, (lexInt rest).map (·.1), ?_, ?_, hlen, q1.symm, q2, q3, ?_, ?_, ?_⟩
+        · simp only [eprtAsWritten, hl, hdelim, ↓reduceIte, hsp]
+        · by_cases h1 : cInt pw = 1
+          · exact Or.inl h1
+          · exact Or.inr (hproto h1)
+        · rw [← strtolInt_fst]; exact q4
+        · rw [← strtolInt_fst]; exact q6
+        · rw [← strtolInt_fst]; exact q7
+
+/-! ### digit strings: what the lexers make of strictly written numbers -/
+
+/-- value of a digit string -/
+def decNat (ds : Bytes) : Nat := ds.foldl (fun a c => a * 10 + (c.toNat - 48)) 0
+
+/-- a non-empty string of decimal digits -/
+def IsDec (ds : Bytes) : Prop := ds ≠ [] ∧ ∀ c ∈ ds, isDigit c = true
+
+/-- the next byte (if any) is not a digit -/
+def NoDigitAhead (r : Bytes) : Prop := ∀ c r', r = c :: r' → isDigit c = false
+
+theorem digit_not_space : ∀ c : UInt8, (!isDigit c || !isSpace c) = true :=
+  forall_octet (fun c => (!isDigit c || !isSpace c)) (by decide +kernel)
+
+theorem digit_not_sign : ∀ c : UInt8, (!isDigit c || (c != 45 && c != 43)) = true :=
+  forall_octet (fun c => (!isDigit c || (c != 45 && c != 43))) (by decide +kernel)
+
+theorem digitsVal_append (ds : Bytes) (hd : ∀ c ∈ ds, isDigit c = true) (r : Bytes) (hr : NoDigitAhead r) (acc : Nat) :
+    digitsVal (ds ++ r) acc = (ds.foldl (fun a c => a * 10 + (c.toNat - 48)) acc, r) := by
+  induction ds generalizing acc with
+  | nil =>
+    simp only [List.nil_append, List.foldl_nil]
+    cases r with
+    | nil => rfl
+    | cons c r' =>
+      have := hr c r' rfl
+      simp [digitsVal, this]
+  | cons d ds ih =>
+    have hdd : isDigit d = true := hd d (by simp)
+    simp only [List.cons_append, digitsVal, hdd, ↓reduceIte, List.foldl_cons]
+    exact ih (fun c hc => hd c (by simp [hc])) _
+
+theorem lexInt_dec {ds : Bytes} (h : IsDec ds) (r : Bytes) (hr : NoDigitAhead r) :
+    lexInt (ds ++ r) = some ((decNat ds : Int), r) := by
+  obtain ⟨hne, hd⟩ := h
+  cases ds with
+  | nil => exact absurd rfl hne
+  | cons d ds' =>
+    have hdd : isDigit d = true := hd d (by simp)
+    have hsp : isSpace d = false := by
+      have := digit_not_space d
+      simpa [hdd] using this
+    have hsg : d ≠ 45 ∧ d ≠ 43 := by
+      have := digit_not_sign d
+      simpa [hdd] using this
+    have hdw : List.dropWhile isSpace (d :: (ds' ++ r)) = d :: (ds' ++ r) := by
+      simp [List.dropWhile, hsp]
+    have hsign : signOf (d :: (ds' ++ r)) = (false, d :: (ds' ++ r)) := by
+      unfold signOf
+      split
+      · rename_i heq; simp only [List.cons.injEq] at heq; exact absurd heq.1 hsg.1
+      · rename_i heq; simp only [List.cons.injEq] at heq; exact absurd heq.1 hsg.2
+      · rfl
+    have hv := digitsVal_append (d :: ds') hd r hr 0
+    simp only [List.cons_append] at hv
+    simp only [lexInt, List.cons_append, hdw, hsign, hdd, ↓reduceIte, Bool.false_eq_true, hv]
+    rfl
+
+theorem splitAtByte_append {d : UInt8} (t : Bytes) (ht : ∀ c ∈ t, c ≠ d) (r : Bytes) :
+    splitAtByte d (t ++ d :: r) = some (t, r) := by
+  induction t with
+  | nil => simp [splitAtByte]
+  | cons c t ih =>
+    have hc : (c == d) = false := by simpa using ht c (by simp)
+    simp only [List.cons_append, splitAtByte, hc, Bool.false_eq_true, ↓reduceIte]
+    rw [ih (fun x hx => ht x (by simp [hx]))]
+    rfl
 
 end SquidModel.Ftp
